@@ -87,6 +87,8 @@ class LL:
                 return v, b, 2 * b
             if self.blob_form == "vector":
                 return v, np.array([b, 2 * b, 3 * b])
+            if self.blob_form == "matrix":  # one matrix per particle (a blob array of three dimensions)
+                return v, np.array([[b, 2 * b], [3 * b, 4 * b]])
             if self.blob_form == "str":
                 return v, repr(float(b))
             if self.blob_form == "nan":  # a derived quantity that is undefined (NaN) in part of the space
